@@ -13,7 +13,9 @@ def run(ctx):
                 "interleavings (depth 6 quick / 8 thorough) of re-send, delivery, release and answer around a decref in flight, and "
                 "a reconnection family on real Tubs (tables of the dead Broker pair after reconnection); and a Tub talking to itself "
                 "over broker.LoopbackTransport, shut down (5 ways) after every number of eventual-send generations while calls, "
-                "answers and callbacks carrying references are in flight in both directions")
+                "answers and callbacks carrying references are in flight in both directions; three parties: the gifter forgets its "
+                "proxy after every number of delivery steps of a third-party introduction (3 gift shapes x 3 link priorities), the "
+                "owner holding the object only through its tables")
     ctx.assumptions = [
         "CPython collects a proxy on the last `del` (+gc.collect()): DropProxy is an explicit action; modelled, not verified",
         "FIFO byte streams both ways, one queue item per top-level banana object (Broker.send is wrapped on the two instances "
@@ -29,6 +31,7 @@ def run(ctx):
     c08_impl.reconnect(ctx, "C09")
     from harness import c09_impl
     c09_impl.loopback(ctx)
+    c09_impl.gift_drops(ctx)
     model_ok = ok
     if not ok:
         model_ok, _ = ctx.coq_build(["lib/Refs.vo"])
